@@ -133,6 +133,14 @@ def check_next_rtc(run, model, rule, E):
             ok = pc == (0, 0) and dc == (0, 0)
             run.inst(rule, f, 'empty: no pop, no dispatch', ok,
                      '' if ok else 'on the empty path next_rtc pops %s / dispatches %s times' % (pc, dc), obligation=True)
+    # the step only takes from the queue: whatever happens to the dispatch (also on the exception paths), the popped event is not put back
+    others = [(n, c, m) for n, c, m in ops_on(g, q, None, fnode=f.node) if m not in REMOVE and m not in ('__len__',)]
+    others = [(n, c, m) for n, c, m in others if m in ADD or m in ('extend', 'extendleft', 'insert', 'rotate', 'clear', 'remove')]
+    run.inst(rule, f, 'the step never puts an event into the queue or reorders it', not others,
+             '' if not others else ('next_rtc calls %s on its queue (%s): an event that was taken for dispatch can be queued again - a step that fails after the handler ran, '
+                                    'for example, is repeated by the next step, so one posted event is dispatched twice'
+                                    % (', '.join(sorted({m for _n, _c, m in others})), norm(others[0][1]))),
+             node=others[0][1] if others else None, obligation=True)
     # nothing popped or dispatched before the test
     for n, c, m in pops:
         ok = guarded_by_edge(g, n, t, lab) and END[m] == E
